@@ -120,6 +120,7 @@ pub fn scenarios(prop: &str, tier: &str) -> Vec<Arc<dyn Scenario>> {
             }
             if prop == "C20" {
                 a.snap = true;
+                a.abandon_ingests = vec![vec![(0, IKind::Val)]];
             }
             let snap = if prop == "C20" { 1 } else { 0 };
             if quick {
@@ -165,6 +166,34 @@ pub fn scenarios(prop: &str, tier: &str) -> Vec<Arc<dyn Scenario>> {
                     oracle,
                 ));
             }
+            {
+                // workload loop on three keys: every write is flushed and leveled-compacted at once
+                let mut al = Alphabet::default();
+                for k in 0..3u8 {
+                    for del in [false, true] {
+                        let w = if del { Op::Del { k } } else { Op::Put { k, big: false } };
+                        al.extra.push(Op::Seq {
+                            ops: vec![w, Op::Flush { w: Wm::Tight }, Op::Leveled { w: Wm::Tight, p: 0 }],
+                        });
+                    }
+                }
+                al.reopen = true;
+                let bd = if quick { bs(4, 0, 0, 1, 0) } else { bs(5, 0, 0, 1, 0) };
+                v.push(std(&format!("{prop}-loop-k3"), TreeCfg::small(keys_abc()), al, bd, seeds_upto(2), oracle));
+                if !quick {
+                    let mut af = Alphabet::default();
+                    af.put_f = true;
+                    af.del_f = true;
+                    af.flush_leveled = vec![0];
+                    af.leveled = vec![0];
+                    af.major = vec![1];
+                    af.movedown = vec![(0, 1)];
+                    af.pulldown = vec![(0, 1)];
+                    af.wms = vec![Wm::Tight];
+                    af.reopen = true;
+                    v.push(std(&format!("{prop}-flushy-k3"), TreeCfg::small(keys_abc()), af, bs(3, 3, 0, 1, 0), seeds_upto(1), oracle));
+                }
+            }
             if prop == "C01" {
                 let (bd, sd) = if quick { (b(2, 2, 0, 1), 1) } else { (b(2, 2, 0, 1), 2) };
                 v.push(std(
@@ -192,11 +221,24 @@ pub fn scenarios(prop: &str, tier: &str) -> Vec<Arc<dyn Scenario>> {
                 v.push(std(
                     &format!("{prop}-blob"),
                     TreeCfg::small(keys_ab()).with_blob(16),
-                    ab,
+                    ab.clone(),
                     bd,
                     seeds_upto(sd),
                     oracle,
                 ));
+                // relocation-happy configuration: every stale blob file is rewritten at once
+                let mut cr = TreeCfg::small(keys_ab()).with_blob(16);
+                cr.blob = Some(crate::driver::BlobCfg { threshold: 16, file_target: 1, staleness: 0.0, age_cutoff: 1.0 });
+                let mut ar = Alphabet::default();
+                ar.put_f_big = true;
+                ar.put_f = true;
+                ar.del_f = true;
+                ar.major = vec![u64::MAX];
+                ar.leveled = vec![0];
+                ar.wms = vec![Wm::Tight];
+                ar.reopen = true;
+                let bd = if quick { bs(3, 2, 0, 1, 0) } else { bs(4, 3, 0, 1, 0) };
+                v.push(std(&format!("{prop}-blob-relocating"), cr, ar, bd, vec![vec![]], oracle));
             }
         }
         "C02" => {
@@ -206,6 +248,23 @@ pub fn scenarios(prop: &str, tier: &str) -> Vec<Arc<dyn Scenario>> {
             a.clear = true;
             a.drop_ranges = vec![(Bnd::Inc(b"a".to_vec()), Bnd::Inc(b"a".to_vec()))];
             a.ingests = vec![vec![(0, IKind::Val)], vec![(0, IKind::Tomb), (1, IKind::Val)]];
+            {
+                // a reader opens its snapshot while a merge is running (played from inside the compaction filter)
+                use crate::cfilter::VerdictSpec;
+                let mut c = TreeCfg::small(keys_ab());
+                c.filter_verdicts = Some(vec![VerdictSpec::Remove, VerdictSpec::ReplaceSmall]);
+                c.mid_snapshot = true;
+                let mut am = Alphabet::core();
+                am.wms = vec![Wm::Zero];
+                am.reopen = false;
+                am.movedown = vec![];
+                am.pulldown = vec![(0, 1)];
+                am.major = vec![u64::MAX];
+                am.flush_sealed = false;
+                am.rotate = false;
+                let bd = if quick { bs(2, 2, 0, 0, 0) } else { bs(3, 3, 0, 0, 0) };
+                v.push(std("C02-midsnap", c, am, bd, seeds_upto(1), OracleKind::C02));
+            }
             if quick {
                 v.push(std(
                     "C02-empty-222",
@@ -250,6 +309,7 @@ pub fn scenarios(prop: &str, tier: &str) -> Vec<Arc<dyn Scenario>> {
                 ));
             }
         }
+        "C02" if false => {}
         "C04" => {
             let mut a = Alphabet::core();
             a.clear = true;
@@ -258,8 +318,24 @@ pub fn scenarios(prop: &str, tier: &str) -> Vec<Arc<dyn Scenario>> {
             a.movedown = vec![(0, 1)];
             a.pulldown = vec![(0, 1)];
             a.major = vec![1];
+            a.abandon_ingests = vec![vec![(0, IKind::Val)]];
             let mut ab = a.clone();
             ab.put_big = true;
+            {
+                // one table (and blob file) per write, reopen anywhere
+                let mut af = Alphabet::default();
+                af.put_f = true;
+                af.put_f_big = true;
+                af.del_f = true;
+                af.major = vec![u64::MAX];
+                af.wms = vec![Wm::Tight];
+                af.reopen = true;
+                let bd = if quick { bs(4, 1, 0, 2, 0) } else { bs(5, 2, 0, 2, 0) };
+                v.push(std("C04-blob-flushy", TreeCfg::small(keys_ab()).with_blob(16), af.clone(), bd, vec![vec![]], OracleKind::C04));
+                let mut cr = TreeCfg::small(keys_ab()).with_blob(16);
+                cr.blob = Some(crate::driver::BlobCfg { threshold: 16, file_target: 1, staleness: 0.0, age_cutoff: 1.0 });
+                v.push(std("C04-blob-relocating", cr, af, bd, vec![vec![]], OracleKind::C04));
+            }
             if quick {
                 v.push(std(
                     "C04-std-222",
